@@ -46,6 +46,8 @@ func (env *Env) bindResults(fn *ssa.Function, vals []Val, resVals []ssa.Value, f
 		if !ok {
 			if cl, isCl := vals[i].(*Closure); isCl {
 				t = Term{strconv.Itoa(env.fc.e.funcTag(fnKey(cl.Fn))), SInt}
+			} else if _, isPE := vals[i].(*PtrSliceElem); isPE && fr != nil && i < len(resVals) {
+				t = fr.term(resVals[i])
 			} else {
 				continue
 			}
@@ -472,7 +474,7 @@ func (env *Env) index(base, idx CVal) (CVal, error) {
 	fc := env.fc
 	if base.GoT != nil {
 		if mt, ok := base.GoT.Underlying().(*types.Map); ok {
-			_, vn, ks, vs := fc.mapArrs(mt, regOfT(base.GoT))
+			_, vn, ks, vs := fc.mapArrs(mt, regOrDefault(fc.e, base))
 			val := fc.heapGet(env.state(), vn, arr(SInt, arr(ks, vs)))
 			er := ""
 			if isMapType(mt.Elem()) {
@@ -562,7 +564,7 @@ func (env *Env) call(x *ECall) (CVal, error) {
 		if !ok {
 			return CVal{}, fmt.Errorf("has on non-map")
 		}
-		dn, _, ks, _ := fc.mapArrs(mt, regOfT(args[0].GoT))
+		dn, _, ks, _ := fc.mapArrs(mt, regOrDefault(fc.e, args[0]))
 		dom := fc.heapGet(env.state(), dn, arr(SInt, arr(ks, SBool)))
 		return CVal{Term{sel(sel(dom.S, args[0].T.S), args[1].T.S), SBool}, nil}, nil
 	case "dom": // dom(m): the domain as a set
@@ -574,7 +576,7 @@ func (env *Env) call(x *ECall) (CVal, error) {
 		if !ok {
 			return CVal{}, fmt.Errorf("dom on non-map")
 		}
-		dn, _, ks, _ := fc.mapArrs(mt, regOfT(args[0].GoT))
+		dn, _, ks, _ := fc.mapArrs(mt, regOrDefault(fc.e, args[0]))
 		dom := fc.heapGet(env.state(), dn, arr(SInt, arr(ks, SBool)))
 		return CVal{Term{sel(dom.S, args[0].T.S), arr(ks, SBool)}, nil}, nil
 	case "vals": // vals(m): the value array
@@ -586,7 +588,7 @@ func (env *Env) call(x *ECall) (CVal, error) {
 		if !ok {
 			return CVal{}, fmt.Errorf("vals on non-map")
 		}
-		_, vn, ks, vs := fc.mapArrs(mt, regOfT(args[0].GoT))
+		_, vn, ks, vs := fc.mapArrs(mt, regOrDefault(fc.e, args[0]))
 		val := fc.heapGet(env.state(), vn, arr(SInt, arr(ks, vs)))
 		return CVal{Term{sel(val.S, args[0].T.S), arr(ks, vs)}, nil}, nil
 	case "deref":
@@ -599,6 +601,18 @@ func (env *Env) call(x *ECall) (CVal, error) {
 			return CVal{}, fmt.Errorf("deref of non-pointer")
 		}
 		srt := fc.e.sortOf(elemT)
+		if _, ok := elemT.Underlying().(*types.Struct); ok && !isTimeType(elemT) {
+			si := fc.e.structs[typeKey(elemT)]
+			fs := ""
+			for i, f := range si.fields {
+				fa := fc.heapGet(env.state(), fieldArrName(elemT, f.Name()), arr(SInt, si.sorts[i]))
+				fs += " " + sel(fa.S, args[0].T.S)
+			}
+			if len(si.fields) == 0 {
+				fs = " 0"
+			}
+			return CVal{Term{"(mk" + srt + fs + ")", srt}, elemT}, nil
+		}
 		a := fc.heapGet(env.state(), derefArrName(elemT), arr(SInt, srt))
 		return CVal{Term{sel(a.S, args[0].T.S), srt}, elemT}, nil
 	case "parent": // parent(m): the map into which map m was (first) stored as a value; 0 if none
@@ -951,7 +965,7 @@ func (env *Env) evalLocs(e Expr) ([]loc, error) {
 				return nil, err
 			}
 			if mt, ok := v.GoT.Underlying().(*types.Map); ok {
-				dn, vn, ks, vs := fc.mapArrs(mt, regOfT(v.GoT))
+				dn, vn, ks, vs := fc.mapArrs(mt, regOrDefault(fc.e, v))
 				return []loc{{dn, arr(SInt, arr(ks, SBool)), v.T, ""}, {vn, arr(SInt, arr(ks, vs)), v.T, ""}}, nil
 			}
 			if ct, ok := v.GoT.Underlying().(*types.Chan); ok {
